@@ -85,7 +85,7 @@ class Engine(Conc, Executor, Calls):
                     d.attrs["full"] = full
                     self.by_func[full] = d
                     for cl in d.clauses:
-                        if cl.kind in ("requires", "ensures", "assume", "invariant"):
+                        if cl.kind in ("requires", "ensures", "assume", "invariant", "guarantee"):
                             cl.ast = parse_expr(cl.text)
                             cl.extra["trace"] = uses_trace(cl.ast)
                             cl.extra["caller_view"] = caller_view(cl.ast)
@@ -209,6 +209,12 @@ class Engine(Conc, Executor, Calls):
         c = ir.by_alias.get(name)
         if c and len(c) == 1:
             return c[0]["name"]
+        import re as _re
+        m = _re.match(r"^(\(\*?)?([A-Za-z0-9_]+)\.(.*)$", name)
+        if m and m.group(2) in ir.alias:
+            cand = (m.group(1) or "") + ir.alias[m.group(2)] + "." + m.group(3)
+            if cand in ir.funcs:
+                return cand
         # same package bare name
         cand = d.pkg + "." + name
         if cand in ir.funcs:
